@@ -329,6 +329,19 @@ Theorem C19_fine_close_only_if : forall fx cf t0 ls st now id rest,
 Proof. exact fine_close_chain. Qed.
 Print Assumptions C19_fine_close_only_if.
 
+(* ... and the connection was collected by the first loop of this same sweep: the interleaving
+   is pb ++ FBegin :: tl0 ++ FLook id :: tl1 with no sweep begun after pb, and just before that
+   FLook the connection was idle for MaxIdleTime against the sweep's clock value.  (Both code
+   versions; without the re-check it is all that is known about the idleness of a connection
+   being closed.) *)
+Theorem C19_fine_close_looked : forall fx cf t0 ls st now id rest,
+  frun fx cf (finit t0) ls = Some st -> f_pc st = SClose now id rest ->
+  exists pb tl0 tl1, ls = pb ++ FBegin :: tl0 ++ FLook id :: tl1 /\ ~ In FBegin tl0 /\ ~ In FBegin tl1 /\
+    now = clock t0 (evs_of pb) /\
+    conn_at fx cf t0 (pb ++ FBegin :: tl0) id (fun c => idle_candidate now (cf_max_idle cf) c = true).
+Proof. exact fine_close_looked. Qed.
+Print Assumptions C19_fine_close_looked.
+
 (* In terms of the history (code with the re-check, monotone stub clock): when the poller is
    about to close connection id, no call frame was sent or received on it between
    (clock at the start of the sweep - MaxIdleTime) and the instant of the re-check, frames
